@@ -41,17 +41,27 @@ pub struct Inner {
     pub flushed: bool,
     pub faults_hit: usize,
     pub len_at_flush: Option<usize>,
+    /// kind of the last error this sink returned (other than Interrupted)
+    pub last_kind: Option<io::ErrorKind>,
 }
 
 #[derive(Clone)]
 pub struct ScriptedSink(pub Rc<RefCell<Inner>>);
 
-fn kind_of(k: u64) -> io::ErrorKind {
-    match k % 4 {
+pub fn kind_of(k: u64) -> io::ErrorKind {
+    match k % 12 {
         0 => io::ErrorKind::Other,
         1 => io::ErrorKind::BrokenPipe,
         2 => io::ErrorKind::WouldBlock,
-        _ => io::ErrorKind::PermissionDenied,
+        3 => io::ErrorKind::PermissionDenied,
+        4 => io::ErrorKind::UnexpectedEof,
+        5 => io::ErrorKind::InvalidData,
+        6 => io::ErrorKind::InvalidInput,
+        7 => io::ErrorKind::TimedOut,
+        8 => io::ErrorKind::WriteZero,
+        9 => io::ErrorKind::NotFound,
+        10 => io::ErrorKind::AlreadyExists,
+        _ => io::ErrorKind::ConnectionReset,
     }
 }
 
@@ -67,6 +77,8 @@ impl io::Write for ScriptedSink {
             Some(Resp::Take(n)) => {
                 if n == 0 {
                     s.faults_hit += 1;
+                    // `write_all` turns Ok(0) into WriteZero
+                    s.last_kind = Some(io::ErrorKind::WriteZero);
                 }
                 let k = n.min(buf.len());
                 s.held.extend_from_slice(&buf[..k]);
@@ -77,6 +89,7 @@ impl io::Write for ScriptedSink {
             }
             Some(Resp::Fail(k)) => {
                 s.faults_hit += 1;
+                s.last_kind = Some(kind_of(k));
                 Err(io::Error::new(kind_of(k), "scripted"))
             }
         }
@@ -84,7 +97,10 @@ impl io::Write for ScriptedSink {
     fn flush(&mut self) -> io::Result<()> {
         let mut s = self.0.borrow_mut();
         match s.flush_fails {
-            Some(k) => Err(io::Error::new(kind_of(k), "scripted flush")),
+            Some(k) => {
+                s.last_kind = Some(kind_of(k));
+                Err(io::Error::new(kind_of(k), "scripted flush"))
+            }
             None => {
                 s.flushed = true;
                 s.len_at_flush = Some(s.held.len());
@@ -103,6 +119,7 @@ pub fn new_sink(prefill: &[u8], script: Vec<Resp>, flush: Option<u64>) -> Script
         flushed: false,
         faults_hit: 0,
         len_at_flush: None,
+        last_kind: None,
     })))
 }
 
@@ -137,14 +154,112 @@ pub fn vec_build(ty: u64, calls: &[Call]) -> Option<Vec<u8>> {
     b.into_inner().ok()
 }
 
+/// the builder behind a front end, over the scripted sink
+enum AnyB {
+    Raw(raw::Builder<ScriptedSink>),
+    Map(fst::MapBuilder<ScriptedSink>),
+    Set(fst::SetBuilder<ScriptedSink>),
+}
+
+impl AnyB {
+    fn new(fe: &str, sink: ScriptedSink, ty: u64, geom: Option<(usize, usize)>) -> Result<AnyB, fst::Error> {
+        if fe.starts_with("map") {
+            fst::MapBuilder::new(sink).map(AnyB::Map)
+        } else if fe.starts_with("set") {
+            fst::SetBuilder::new(sink).map(AnyB::Set)
+        } else {
+            mk_builder(sink, ty, geom).map(AnyB::Raw)
+        }
+    }
+    fn call(&mut self, c: &Call) -> Result<(), fst::Error> {
+        match (self, c) {
+            (AnyB::Raw(b), Call::Ins(k, v)) => b.insert(k, *v),
+            (AnyB::Raw(b), Call::Add(k)) => b.add(k),
+            (AnyB::Map(b), Call::Ins(k, v)) => b.insert(k, *v),
+            (AnyB::Map(b), Call::Add(k)) => b.insert(k, 0),
+            (AnyB::Set(b), Call::Ins(k, _)) => b.insert(k),
+            (AnyB::Set(b), Call::Add(k)) => b.insert(k),
+        }
+    }
+    /// the whole call list through one `extend_iter` / `extend_stream`
+    fn batch(&mut self, fe: &str, calls: &[Call]) -> Result<(), fst::Error> {
+        let kv: crate::run::Kv = calls
+            .iter()
+            .map(|c| match c {
+                Call::Ins(k, v) => (k.clone(), *v),
+                Call::Add(k) => (k.clone(), 0),
+            })
+            .collect();
+        use crate::run::{VecStream, VecStreamMap, VecStreamSet};
+        let stream = fe.ends_with("_stream");
+        match self {
+            AnyB::Raw(b) => {
+                if stream {
+                    b.extend_stream(VecStream { items: kv, i: 0 })
+                } else {
+                    b.extend_iter(kv.into_iter().map(|(k, v)| (k, raw::Output::new(v))))
+                }
+            }
+            AnyB::Map(b) => {
+                if stream {
+                    b.extend_stream(VecStreamMap(VecStream { items: kv, i: 0 }))
+                } else {
+                    b.extend_iter(kv.into_iter())
+                }
+            }
+            AnyB::Set(b) => {
+                if stream {
+                    b.extend_stream(VecStreamSet(VecStream { items: kv, i: 0 }))
+                } else {
+                    b.extend_iter(kv.into_iter().map(|(k, _)| k))
+                }
+            }
+        }
+    }
+    fn bytes_written(&self) -> u64 {
+        match self {
+            AnyB::Raw(b) => b.bytes_written(),
+            AnyB::Map(b) => b.bytes_written(),
+            AnyB::Set(b) => b.bytes_written(),
+        }
+    }
+    fn into_inner(self) -> Result<ScriptedSink, fst::Error> {
+        match self {
+            AnyB::Raw(b) => b.into_inner(),
+            AnyB::Map(b) => b.into_inner(),
+            AnyB::Set(b) => b.into_inner(),
+        }
+    }
+}
+
+/// an `Err` that the sink caused must be `Error::Io` carrying the sink's own error kind
+fn io_kind_ok(e: &fst::Error, h: &ScriptedSink) -> Result<(), String> {
+    let want = h.0.borrow().last_kind;
+    match (e, want) {
+        (fst::Error::Io(ioe), Some(k)) => {
+            if ioe.kind() == k {
+                Ok(())
+            } else {
+                Err(format!("Err(Io({:?})) but the sink failed with {:?}", ioe.kind(), k))
+            }
+        }
+        (fst::Error::Io(ioe), None) => Err(format!("Err(Io({:?})) although the sink never failed", ioe.kind())),
+        (_, None) => Ok(()),
+        (other, Some(k)) => Err(format!("the sink failed with {:?} but the call returned {:?}", k, other)),
+    }
+}
+
 pub fn cmd_sink(r: &mut Runner, t: &[&str]) -> String {
-    // sink <ty> <geom> <script> <flush> <prefill> <ops>
+    // sink <ty> <geom> <script> <flush> <prefill> <ops> [front end]
     let ty: u64 = t[1].parse().unwrap();
     let geom = parse_geom(t[2]);
     let script = parse_script(t[3]);
     let flush: Option<u64> = if t[4] == "-" { None } else { Some(t[4].parse().unwrap()) };
     let prefill = unhex(t[5]);
-    let calls = parse_calls(t.get(6).copied().unwrap_or(""));
+    let ops = t.get(6).copied().unwrap_or("");
+    let calls = parse_calls(if ops == "-" { "" } else { ops });
+    let fe = t.get(7).copied().unwrap_or("raw");
+    let is_batch = fe.ends_with("_iter") || fe.ends_with("_stream");
     let benign = flush.is_none()
         && script.iter().all(|x| match x {
             Resp::Take(n) => *n >= 1,
@@ -154,21 +269,32 @@ pub fn cmd_sink(r: &mut Runner, t: &[&str]) -> String {
     let sink = new_sink(&prefill, script.clone(), flush);
     let handle = sink.clone();
     let line = t.join(" ");
-    let mut b = match mk_builder(sink, ty, geom) {
+    let mut b = match AnyB::new(fe, sink, ty, geom) {
         Ok(b) => b,
         Err(e) => {
             let es = show_err(&e);
             r.check(es == "io" && !benign, || format!("C11/C07 Builder::new failed with {} (benign={}) on {}", es, benign, line));
+            if let Err(m) = io_kind_ok(&e, &handle) {
+                r.fail(format!("C11 {}: {}", m, line));
+            }
             let h = handle.0.borrow();
             return format!("sink new={} | {} | calls={}", es, show_bytes(&h.held), h.calls);
         }
     };
     let mut res = vec![];
     let mut alive = true;
-    for c in &calls {
-        let rr = match c {
-            Call::Ins(k, v) => b.insert(k, *v),
-            Call::Add(k) => b.add(k),
+    let steps: Vec<Option<&Call>> = if is_batch { vec![None] } else { calls.iter().map(Some).collect() };
+    for c in steps {
+        let rr = std::panic::catch_unwind(std::panic::AssertUnwindSafe(|| match c {
+            Some(c) => b.call(c),
+            None => b.batch(fe, &calls),
+        }));
+        let rr = match rr {
+            Ok(x) => x,
+            Err(_) => {
+                r.fail(format!("C11 PANIC in a builder call over a failing or short-writing sink: {}", line));
+                return "sink panic".into();
+            }
         };
         let cnt = b.bytes_written();
         let accepted = (handle.0.borrow().held.len() - prefill.len()) as u64;
@@ -183,8 +309,13 @@ pub fn cmd_sink(r: &mut Runner, t: &[&str]) -> String {
         }
         let hit = handle.0.borrow().faults_hit;
         r.check((hit > 0) == (s == "io"), || format!("C11 sink failed {} time(s) during the call but the call returned {}: {}", hit, s, line));
+        if let Err(e) = &rr {
+            if let Err(m) = io_kind_ok(e, &handle) {
+                r.fail(format!("C11 {}: {}", m, line));
+            }
+        }
         res.push(format!("{}@{}", s, cnt));
-        if s == "io" {
+        if s == "io" || (is_batch && s != "ok") {
             alive = false;
             break;
         }
@@ -203,6 +334,11 @@ pub fn cmd_sink(r: &mut Runner, t: &[&str]) -> String {
         Ok(_) => "ok".to_string(),
         Err(e) => show_err(e),
     };
+    if let Err(e) = &fin {
+        if let Err(m) = io_kind_ok(e, &handle) {
+            r.fail(format!("C11 {} (finish): {}", m, line));
+        }
+    }
     let h = handle.0.borrow();
     let script_left = h.script.iter().any(|x| matches!(x, Resp::Fail(_) | Resp::Take(0)));
     if fin_s == "ok" {
@@ -210,18 +346,35 @@ pub fn cmd_sink(r: &mut Runner, t: &[&str]) -> String {
         r.check(h.flushed, || format!("C11 finish ok without a successful flush: {}", line));
         r.check(h.faults_hit == 0, || format!("C11 finish ok although the sink failed: {}", line));
         // C07/C11: everything the sink holds was handed over before the final flush
-        r.check(h.len_at_flush == Some(h.held.len()), || format!("C07 C11 {} byte(s) reached the sink after the last flush: {}", h.held.len() - h.len_at_flush.unwrap_or(0), line));
-        if let Some(want) = vec_build(ty, &calls) {
+        r.check(h.len_at_flush == Some(h.held.len()), || format!("C07 C11 C15 {} byte(s) reached the sink after the last flush: {}", h.held.len() - h.len_at_flush.unwrap_or(0), line));
+        // the reference: an in-memory build of the accepted calls (wrapper front ends: type 0)
+        let ref_calls: Vec<Call> = if fe.starts_with("set") {
+            calls.iter().map(|c| match c { Call::Ins(k, _) | Call::Add(k) => Call::Add(k.clone()) }).collect()
+        } else if fe.starts_with("map") {
+            calls.iter().map(|c| match c { Call::Ins(k, v) => Call::Ins(k.clone(), *v), Call::Add(k) => Call::Ins(k.clone(), 0) }).collect()
+        } else {
+            calls.clone()
+        };
+        let ref_ty = if fe.starts_with("set") || fe.starts_with("map") { 0 } else { ty };
+        if let Some(want) = vec_build(ref_ty, &ref_calls) {
             let held = &h.held[prefill.len()..];
             r.check(held == &want[..], || {
-                format!("C07 C09 C15 sink holds {} want {} : {}", show_bytes(held), show_bytes(&want), line)
+                format!("C07 C09 C15 C01 sink holds {} want {} : {}", show_bytes(held), show_bytes(&want), line)
             });
             let opened = raw::Fst::new(held.to_vec());
-            let ok = match opened {
+            let ok = match &opened {
                 Ok(f) => f.verify().is_ok(),
                 Err(_) => false,
             };
-            r.check(ok, || format!("C07/C08 result does not open+verify: {}", line));
+            r.check(ok, || format!("C07/C08 C01 result does not open+verify: {}", line));
+            // the FST the sink received becomes the current one: later get/stream/… lines
+            // query an FST that was written through this sink
+            if let Ok(f) = opened {
+                let (_, accepted, _, ambiguous) = crate::run::contract(&ref_calls, false);
+                r.expect = if ambiguous { None } else { Some(accepted) };
+                r.cur = Some(f);
+                r.cur_built = true;
+            }
         }
     } else {
         r.check(fin_s == "io", || format!("C11 finish returned {} : {}", fin_s, line));
